@@ -88,6 +88,7 @@ type Elem struct {
 	Value      TypeID   `json:",omitempty"`
 	VID        int      `json:",omitempty"`
 	H          uint32   `json:",omitempty"`
+	Literal    bool     `json:",omitempty"` // value: written as an untyped constant literal (not logged)
 	Set        string   `json:",omitempty"`
 	Inline     []Elem   `json:",omitempty"`
 }
@@ -105,6 +106,7 @@ type Injector struct {
 
 type File struct {
 	Name      string
+	MultiVar  bool `json:",omitempty"` // the file's Sets are declared in ONE var statement: var a, b = Set(..), Set(..)
 	Sets      []SetDecl
 	Injectors []Injector
 }
@@ -316,6 +318,7 @@ type Unit struct {
 	Type  TypeID // struct / value type
 	VID   int
 	H     uint32
+	Literal bool
 	// for field accessors created from a struct unit:
 	Field    *Field
 	FieldIdx int
@@ -342,6 +345,9 @@ func (u *Unit) PID() int {
 	case "prov":
 		return u.Prov.ID
 	case "value":
+		if u.Literal {
+			return -1
+		}
 		return 100000 + u.VID
 	}
 	return -1
@@ -374,7 +380,7 @@ func (c *Case) Flatten(elems []Elem) []*Unit {
 			case "struct":
 				out = append(out, &Unit{Kind: "struct", Type: e.Struct, Async: e.Async, Bind: e.Bind})
 			case "value":
-				out = append(out, &Unit{Kind: "value", Type: e.Value, VID: e.VID, H: e.H})
+				out = append(out, &Unit{Kind: "value", Type: e.Value, VID: e.VID, H: e.H, Literal: e.Literal})
 			case "set":
 				if s := c.SetByName(e.Set); s != nil {
 					walk(s.Elems, depth+1)
